@@ -319,6 +319,10 @@ impl<const H: usize> Writer<H> {
         self.flushed_offset.set(offset);
         self.write_offset = offset;
 
+        // The buffered writer still points past the truncated data: move it back, so
+        // the next append lands at the new write offset
+        self.writer.seek(SeekFrom::Start(offset))?;
+
         // Write full zero header as clear truncation marker
         let zero_header = [0u8; RECORD_HEAD_SIZE];
         self.writer.get_ref().write_all_at(&zero_header, offset)?;
